@@ -24,7 +24,7 @@ SPEC = {
         "extract": ["Extract/ExtDnsProto.v"],
         "theorems": [
             "C20_answer", "C20_answer_registered", "C20_no_crash", "C20_fits_threshold", "C20_fits_repaired",
-            "C20_server_respond", "C20_server_respond_too_long",
+            "C20_server_respond", "C20_server_respond_too_long", "C20_progress", "C20_progress_example",
             "C20_answer_refuted_long_name", "C20_long_name_never_resolved", "C20_answer_refuted_builtin",
             "C20_answer_example", "C20_echo", "C20_echo_reply", "C20_cache_silent", "C20_cache_silent_hit",
             "C20_validate_sound", "C20_validate_run", "C20_validate_example",
@@ -49,7 +49,7 @@ SPEC = {
             "| 70% up to 200 ms | all up to 50 us; ARP frames included) = reordering of queries and replies; 9 of 10 on "
             "the paused current-thread runtime (exact oracle), 1 of 10 on Multi(1|2|4) (order-insensitive oracle); "
             "12% hostile: a name without record is looked up, a registered name contains the delimiter, the server "
-            "accepts one connection too few. Result = trace + ending (DONE | CRASH file:line | HANG). "
+            "accepts one connection too few. Result = trace + ending (DONE | CRASH file:line:kind | HANG). "
             "distinct = distinct case line; non-trivial = run ended DONE",
     "trusted_base": [
         "Coq 8.16.1 kernel (coqc; vm_compute only in the closed witness computations C20_*_refuted_*, "
@@ -70,8 +70,9 @@ SPEC = {
         "neither lost, duplicated nor corrupted (C02/C05; the harness plan only delays), Network::basic() has no MTU",
         "tokio scheduling, Notify/mpsc wake-ups and real time are not modelled: the model is a labelled transition "
         "system whose labels (lookup start, query/reply datagram handed to the network, lookup return, panic) may "
-        "occur in any order the guards admit; liveness (every lookup eventually returns) is not proved, only "
-        "observed by the oracle on every scenario",
+        "occur in any order the guards admit; liveness is proved as enabledness (C20_progress: a waiting "
+        "lookup can always be completed by at most two further labels), not as fairness of the scheduler; that "
+        "every lookup does return is observed by the oracle on every scenario",
         "which of several concurrent lookups of one name on one client owns which socket is not observable; the "
         "model lets a returning lookup take any answered socket opened for its name",
         "ports: the model asks for a port not used before by that client in 49152..65535; the counter of "
